@@ -188,7 +188,7 @@ def cases(ctx):
         t = dns.rdata._escapify(b)
         yield "unescape-bytes", [4, enc(t)]
         yield "unescape", [3, enc(t), 1]
-    for _ in range(ctx.n(250, 15000)):
+    for _ in range(ctx.n(180, 15000)):
         t = gen_text(rng)
         yield "tokenize", [2, enc(t), int(rng.random() < 0.2), int(rng.random() < 0.2)]
         yield "txt-from-text", [7, enc(t)]
@@ -198,7 +198,7 @@ def cases(ctx):
         yield "unescape-bytes", [4, enc(a)]
         yield "int", [8, enc(a), rng.choice([10, 10, 8])]
         yield "ttl", [9, enc(a)]
-    for _ in range(ctx.n(250, 10000)):
+    for _ in range(ctx.n(180, 10000)):
         t = gen_text(rng)
         ops = [rng.choice([0, 0, 1, 2, 3, 4, 5, 6, 7, 8, 8, 9, 10, 11, 12, 13, 14, 16, 17, 18, 19, 20, 21, 21, 22]) for _ in range(rng.randint(1, 6))]
         yield "script", [5, enc(t), ops]
@@ -349,7 +349,7 @@ def style_obj(sty):
 def schema_cases(ctx):
     rng = ctx.rng
     types = sorted(SCHEMA)
-    for _ in range(ctx.n(250, 12000)):
+    for _ in range(ctx.n(160, 12000)):
         rdtype = rng.choice(types)
         kinds = SCHEMA[rdtype][0].split()
         vals = [gen_field(rng, k) for k in kinds]
@@ -402,7 +402,7 @@ def addr_cases(ctx):
         yield "ipv4-ntoa", [50, bytes([o, (o * 7) % 256, 255 - o, o])]
         if not ctx.quick:
             yield "ipv4-aton", [51, enc("%d.0.%d.1" % (o, o))]
-    for _ in range(ctx.n(50, 6000)):
+    for _ in range(ctx.n(30, 6000)):
         a4 = bytes(rng.choice([0, 1, 9, 10, 99, 100, 199, 200, 255, rng.randrange(256)]) for _ in range(4))
         yield "ipv4-ntoa", [50, a4 if rng.random() < 0.95 else a4[:3]]
         t4 = dns.ipv4.inet_ntoa(a4)
@@ -441,7 +441,7 @@ def windows_of_types(types):
 
 def bitmap_cases(ctx):
     rng = ctx.rng
-    for _ in range(ctx.n(120, 4000)):
+    for _ in range(ctx.n(60, 4000)):
         types = sorted(c05lib.gen_types(rng))
         ws = windows_of_types(types)
         yield "bitmap-types", [54, ws]
